@@ -425,6 +425,34 @@ class Gen:
             op["kw"] = self.gen_kw()
         return self.pick_vtype(op)
 
+    def gen_self_volumes(self, view):
+        """`wl.dispense(plate, plate.wells, plate.volumes)` (double every well) or `wl.aspirate(..., plate.volumes)`
+        (empty every well): wells and volumes are the labware's own attribute objects. None if no labware fits."""
+        rng = self.rng
+        cands = list(range(len(self.labs)))
+        rng.shuffle(cands)
+        for li in cands:
+            geo = self.geos[li]
+            if geo.trough and geo.idrows != 1:
+                continue  # wells (virtual rows x columns) and volumes (1 x columns) have different shapes
+            cur = self.vols(view, li)
+            vals = list(cur.values())
+            if not vals or max(vals) > self.wl_max or max(vals) <= 0:
+                continue
+            kinds = []
+            if all(2 * v <= geo.vmax for v in vals):
+                kinds.append("dispense")
+            if geo.vmin == 0:
+                kinds.append("aspirate")
+            if not kinds:
+                continue
+            rows = geo.idrows
+            wells = [[geo.well_id(r, c) for c in range(geo.cols)] for r in range(rows)]
+            vols = [[float(cur[(0, c) if geo.trough else (r, c)]) for c in range(geo.cols)] for r in range(rows)]
+            return {"op": rng.choice(kinds), "lab": li, "wells": wells, "volumes": enc(vols), "label": rng.choice(LABELS),
+                    "intent": "ok", "vself": True, "comps": None}
+        return None
+
     def gen_chain_transfer(self, view, intent):
         """A transfer within one plate column whose steps overlap: a well is the destination of one step and the
         source of another. Executed in the order of the records (one tip at a time) the first step is refused;
